@@ -344,6 +344,10 @@ def main(arg):
             continue
         c = classes[i]
         fs = []
+        try:
+            hints = typing.get_type_hints(c)      # what the converter's registration walk resolves
+        except Exception:
+            hints = {}
         for f in dataclasses.fields(c):
             if f.default is not dataclasses.MISSING:
                 d = ["n"] if f.default is None else ["unknown", repr(f.default)]
@@ -351,7 +355,7 @@ def main(arg):
                 d = ["l", []] if f.default_factory is list else (["m", []] if f.default_factory is dict else ["unknown", "factory"])
             else:
                 d = None
-            fs.append({"name": f.name, "ty": ty(f.type), "default": d})
+            fs.append({"name": f.name, "ty": ty(hints.get(f.name, f.type)), "default": d})
         meta = getattr(c, "Meta", None)
         load = getattr(meta, "key_transform_with_load", None)
         dump = getattr(meta, "key_transform_with_dump", None)
@@ -608,7 +612,7 @@ def main(chk: Check, replay: dict | None = None) -> int:
         if bad:
             chk.broken.append({"kind": "guard", "name": "C03_maps_bijective_partial: generated field names not distinct",
                                "mismatches": len(bad), "first": {"input": bad[0]["input"], "obs": bad[0]["obs"]["classes"]}})
-    chk.decide(cases, codes, {2: "F03b", 3: "F03c"},
+    chk.decide(cases, codes, {2: "F03b"},
                "Corr.C03.run: gen_class + run_ops (model) = dataclasses of the generated package + its own "
                "structure_from_dict/unstructure_to_dict")
     return chk.finish(TRUSTED,
